@@ -23,3 +23,27 @@ claim('C03', 'proof',
       'and the other six classes are covered by replay only (not proved). Zero-area loops '
       'are excluded (not valid inputs).',
       'DESIGN.md 4 C03')
+
+claim('C02', 'proof',
+      'Lean 4 theorems (isometry / orientation / measure laws) on py2lean-generated transform kernels + kernel correspondence at Q; whole-object oracle on the real code',
+      '242 theorems about the regenerated transform kernels of points, vectors, segments, rays, '
+      'planes, arcs, spheres, cones and cylinders: for every (cos,sin) on the unit circle, every '
+      'unit mirror normal and every k: images of defining points, dot/det/cross preservation or '
+      'sign flip, inverse maps, measure scaling, frame validity of transformed planes. '
+      'Composite classes (polygons, meshes, faces, polyfaces) are covered by the generated '
+      'Polygon2D machine (C03) and a whole-object oracle against an independent map.',
+      'Trusted: Lean kernel, py2lean, harness. sqrt/cos/sin/floor enter as abstract MathOps with '
+      'explicit law hypotheses (witnessed over R in Props/C02Real.lean). Float rounding is '
+      'outside the model. Mesh/Face3D/Polyface3D transform methods are not generated: '
+      'correspondence only.',
+      'DESIGN.md 4 C02')
+claim('C12', 'proof',
+      'Lean 4 minimality / on-object / Lipschitz theorems on py2lean-generated closest-point kernels + kernel correspondence at Q',
+      'For the generated closest-point kernels of segments, rays, infinite lines (2D/3D), planes, '
+      'line-plane pairs and arcs: the result lies on the object, minimises the squared distance '
+      'over the whole object (convexity argument, all inputs), is zero exactly for queries on '
+      'the object and is non-expansive; distances are 1-Lipschitz under the sqrt laws.',
+      'Trusted: Lean kernel, py2lean, harness. Proper-arc minimality is proved only for full '
+      'circles (needs an acos monotonicity law); polygon/face distances and '
+      'pole_of_inaccessibility are covered by the property oracle only.',
+      'DESIGN.md 4 C12')
